@@ -367,12 +367,12 @@ Print Assumptions C04_glue_source_filter_match.
 (* C13, read off the generated function alone (no model): when a partitioner is configured, the source selects nothing
    the partitioner did not accept -- whichever of MatchEmptyPatterns / MatchWithPatterns the name and expression stages
    answered, for every value of every other input. *)
-Theorem C13_source_partition_gates_filter_match :
+Theorem C13_partition_gates_source_filter_match :
   forall self tb tn ecx bd ign p1 p2 p3 p4 pm pd pp tok,
     G.TestFilter_partitioner self = Some tok ->
     G.TestFilter_filter_match self tb tn ecx bd ign p1 p2 p3 p4 pm pd pp = G.FilterMatch_Matches -> pp = true.
 Proof. exact gen_filter_match_needs_partition. Qed.
-Print Assumptions C13_source_partition_gates_filter_match.
+Print Assumptions C13_partition_gates_source_filter_match.
 
 (* the model's facts, from the property text: a test that passes all other filters is partition-matched whatever kind
    of match accepted it; a rejected test does not reach the partitioner (the counter does not move); two hash shards
@@ -428,7 +428,7 @@ Print Assumptions C18_source_env_file_line.
 
 (* ... and the loop of Model/Scripts.v, the function C18's environment-file theorems are about, makes exactly the
    regenerated step for every line *)
-Theorem C18_source_env_file_loop_of_env_file_line :
+Theorem C18_loop_source_env_file_line :
   forall line rest acc,
     MSc.parse_lines (bytes_of_string line :: rest) acc =
     match G.env_file_line line with
@@ -436,7 +436,7 @@ Theorem C18_source_env_file_loop_of_env_file_line :
     | inr _ => None
     end.
 Proof. exact gen_env_file_loop_is_model. Qed.
-Print Assumptions C18_source_env_file_loop_of_env_file_line.
+Print Assumptions C18_loop_source_env_file_line.
 
 (* the model's facts, from the property text: one reserved line makes the whole file unacceptable wherever it stands;
    an accepted file has only lines `k=v` whose key does not begin with NEXTEST *)
@@ -465,3 +465,76 @@ Example C18_source_env_file_line_witness :
   G.env_file_line C18Lit.plain = inl (C18Lit.plain_key, C18Lit.plain_value) /\
   G.env_file_line C18Lit.no_equals = inr G.SetupScriptOutputError_EnvFileParse.
 Proof. vm_compute. repeat split. Qed.
+
+(* ---- the sections of a unit's captured output (C16) *)
+
+(* C16 "with split capture standard output and standard error are shown as two sections, each when it is non-empty (or
+   when empty streams are displayed)": the streams UnitOutputReporter::write_child_output hands to
+   write_test_single_output_with_description and the headers it writes with writeln!, in order, each under the condition
+   it is written, regenerated from the source, are the streams and the headers of Model/DisplaySections.v's sections --
+   for every reporter, every output (a stream is its buffer and whether it is empty) and every triple of headers.
+   Folding the two blocks into one loop that stops at the first stream that is not shown (map_while), or nesting the
+   stderr block inside the stdout block, falsifies it. What is written INSIDE a section (indentation, highlighting,
+   ANSI stripping) stays with C16's differential and real-run stages. *)
+Theorem C16_source_display_sections :
+  forall u o ho he hc,
+    G.display_sections u o = map fst (model_sections u o ho he hc) /\
+    G.display_section_headers u o ho he hc = map snd (model_sections u o ho he hc).
+Proof. exact gen_display_sections_is_model. Qed.
+Print Assumptions C16_source_display_sections.
+
+(* the model's facts, from the property text: standard error is shown on its own account -- a non-empty standard error
+   is a section whatever standard output is (missing, empty and skipped, or shown); likewise standard output; an empty
+   stream is hidden unless empty streams are displayed; at most two sections, standard output first *)
+Theorem C16_nonempty_stderr_shown :
+  forall (stream header : Type) (is_empty : stream -> bool) de out e ho he,
+    is_empty e = false -> In (e, he) (MSe.split_sections stream header is_empty de out (Some e) ho he).
+Proof. exact PSe.nonempty_stderr_shown. Qed.
+Print Assumptions C16_nonempty_stderr_shown.
+
+Theorem C16_nonempty_stdout_shown :
+  forall (stream header : Type) (is_empty : stream -> bool) de o err ho he,
+    is_empty o = false -> In (o, ho) (MSe.split_sections stream header is_empty de (Some o) err ho he).
+Proof. exact PSe.nonempty_stdout_shown. Qed.
+Print Assumptions C16_nonempty_stdout_shown.
+
+Theorem C16_empty_stream_hidden :
+  forall (stream header : Type) (is_empty : stream -> bool) s h,
+    is_empty s = true -> MSe.stream_section stream header is_empty false (Some s) h = [].
+Proof. exact PSe.empty_stream_hidden. Qed.
+Print Assumptions C16_empty_stream_hidden.
+
+Theorem C16_split_sections_order :
+  forall (stream header : Type) (is_empty : stream -> bool) de out err ho he,
+    exists a b, MSe.split_sections stream header is_empty de out err ho he = a ++ b /\
+                (a = [] \/ exists o, out = Some o /\ a = [(o, ho)]) /\
+                (b = [] \/ exists e, err = Some e /\ b = [(e, he)]).
+Proof. exact PSe.split_order. Qed.
+Print Assumptions C16_split_sections_order.
+
+(* ... carried over to the source: a captured, non-empty standard error is handed to the writer whatever standard
+   output is *)
+Theorem C16_stderr_independent_source_display_sections :
+  forall u so e ho he hc,
+    G.ChildSingleOutput_is_empty e = false ->
+    In e (G.display_sections u (G.ChildOutput_Split (G.mk_ChildSplitOutput so (Some e)))) /\
+    In he (G.display_section_headers u (G.ChildOutput_Split (G.mk_ChildSplitOutput so (Some e))) ho he hc).
+Proof.
+  intros u so e ho he hc H.
+  destruct (gen_display_sections_is_model u (G.ChildOutput_Split (G.mk_ChildSplitOutput so (Some e))) ho he hc) as [H1 H2].
+  rewrite H1, H2. cbn [model_sections G.ChildSplitOutput_stdout G.ChildSplitOutput_stderr].
+  pose proof (PSe.nonempty_stderr_shown _ N G.ChildSingleOutput_is_empty
+                (G.UnitOutputReporter_display_empty_outputs u) so e ho he H) as Hin.
+  split; [exact (in_map fst _ _ Hin) | exact (in_map snd _ _ Hin)].
+Qed.
+Print Assumptions C16_stderr_independent_source_display_sections.
+
+(* non-vacuity: empty stdout (skipped), non-empty stderr: exactly the stderr section *)
+Example C16_source_display_sections_witness :
+  G.display_sections (G.mk_UnitOutputReporter None None false)
+    (G.ChildOutput_Split (G.mk_ChildSplitOutput (Some (G.mk_ChildSingleOutput 1 true)) (Some (G.mk_ChildSingleOutput 2 false))))
+  = [G.mk_ChildSingleOutput 2 false] /\
+  G.display_section_headers (G.mk_UnitOutputReporter None None false)
+    (G.ChildOutput_Split (G.mk_ChildSplitOutput (Some (G.mk_ChildSingleOutput 1 true)) (Some (G.mk_ChildSingleOutput 2 false))))
+    10 20 30 = [20].
+Proof. vm_compute. split; reflexivity. Qed.
